@@ -207,6 +207,111 @@ CLAIMS["C14"] = dict(
          "by the non in-place `tooled` decorator is not what its reference resolves to. Holds only after fix commit 9c6aa53.",
 )
 
+
+M2 = ("Model M2: the PyLite fragment of Python's ast, ptera's rewriter as a function on it (`instrument`, hand-written "
+      "after ptera/transform.py), an executable semantics of the fragment over an abstract host, and the *reference "
+      "semantics* (plain Python in which the bindings of captured names consult the handler). ")
+TIE = ("Ties, all run on every check: (1) AST correspondence - for generated functions x capture sets the tree real "
+       "transform() hands to compile() is compared node by node with the model's `instrument`, and ptera's provenance "
+       "table with the model's `collect`; (2) executable correspondence - the model interpreter against CPython on the "
+       "untouched program (result/exception, ordered helper log, object state, yielded sequence), the rewritten program "
+       "against the reference semantics inside the model (the executable statement of the theorem), and the reference "
+       "semantics' events for a focus variable against a real ptera probe. ")
+THM = ("Main theorem `instrument_refines` (Lean, by induction over the syntax, loops by induction on the bound / the "
+       "items): for EVERY function of the core fragment (names, tuple/nested/starred targets, attribute and subscript "
+       "stores, augmented and annotated assignment, declarations, walrus, yield, if/while/for/try/with, nested "
+       "def/class/import, return/raise/break/continue), every capture set, every host and handler, every input, "
+       "generator script and loop bound, the rewritten function ends the same way as the reference semantics with the "
+       "same world (ordered side effects), handler state (events) and generator traffic. ")
+NOTE_M2 = ("Modelled, not verified: Python's semantics of the fragment (validated against CPython by the executable "
+           "correspondence on generated programs with opaque logged helpers), annotations as static values, globals "
+           "immutable during the call (the documented exception), the handler as an arbitrary state machine (M3 is "
+           "its model), one `with` item, no chained assignment / computed subscript of a named container / "
+           "global-nonlocal / closures inside the theorem's fragment (they are inside the AST correspondence and the "
+           "oracles). ")
+
+CLAIMS["C01"] = dict(
+    technique="Lean 4 simulation theorem for the source-to-source rewrite (instrument_refines) + AST correspondence with ptera.transform + executable correspondence with CPython and real probes + differential oracle",
+    text="PARTIAL. " + M2 + THM + "With an observing handler each captured binding stores what Python stores "
+         "(C01_observer_changes_nothing) and uncaptured names never reach the handler (C01_uncaptured_untouched). The "
+         "erasure of the observing handler over WHOLE runs (reference semantics = plain Python) is not proved; it is "
+         "explored by the differential oracle: untouched function vs tooled / tooled in place / probed on random "
+         "subsets of its variables (result or exception, yields, ordered helper log, object and global state). " + TIE,
+    design_ref="DESIGN.md section 5, C01",
+    note=NOTE_M2,
+)
+CLAIMS["C02"] = dict(
+    technique="Lean 4: events of the rewritten function = events of the reference semantics (corollary of instrument_refines) + per-binding lemmas; AST / executable correspondence; twin-program oracle",
+    text=M2 + THM + "Hence the recorded events of the rewritten function are, in order and with their values, those of "
+         "the reference semantics (C02_events_are_the_reference_history), in which every binding form contributes exactly "
+         "one event with the value bound when the name is captured and none otherwise (C02_one_event_per_binding, "
+         "C02_no_event_when_not_captured, C02_rebinding_reports_current_value). " + TIE + "Oracle: probing(f(ctx...) > x) "
+         "against the binding log of an independently rendered twin of the same program, for every choice of focus and "
+         "context variables.",
+    design_ref="DESIGN.md section 5, C02",
+    note=NOTE_M2 + "The context values carried by an event (latest value of the other captures) are the handler's "
+         "business (M3, Props/C05/C07) and the twin oracle's.",
+)
+CLAIMS["C04"] = dict(
+    technique="Lean 4: runtime theorems over M3 (last override wins, decline, closure refusal) + program half by instrument_refines for arbitrary (overriding) handlers; AST / executable correspondence; substituted-twin oracle",
+    text="Runtime half over the handler model M3: the most recently activated override that answers wins, one that "
+         "declines leaves the earlier answer or the original value, an answer for a non-overridable (closure) variable is "
+         "an OverrideException, what is logged is the substituted value. Program half: " + M2 + THM + "The theorem holds "
+         "for ARBITRARY handlers, overriding ones included: the rewritten function behaves as the reference semantics in "
+         "which the binding stores the handler's answer after evaluating the right-hand side once "
+         "(C04_rewritten_is_substituted_program, C04_binding_stores_the_answer, C04_rhs_once_then_binding, "
+         "C04_declined_untouched). " + TIE + "Oracle: overriding probes (constant, context-dependent, conditional; nested "
+         "with plain probes) against the substituted twin program.",
+    design_ref="DESIGN.md section 5, C04",
+    note=NOTE_M2,
+)
+CLAIMS["C06"] = dict(
+    technique="Lean 4: bracket shape of the reference semantics (try/finally, try/except, per-iteration try/finally, yield/receive) + instrument_refines carrying it to the rewritten code; AST / executable correspondence; stream-grammar oracle",
+    text="PARTIAL. " + M2 + THM + "In the reference semantics the brackets are the shape of the semantics: with #exit "
+         "captured the activation is try/finally whose final part is the #exit event and a finally part runs after every "
+         "non-abandoned outcome (C06_exit_on_every_way_out, C06_finally_always_runs); #error is delivered with the "
+         "exception exactly when the body ends by raising (C06_error_exactly_on_exception, C06_error_event); an iteration "
+         "is try: #loop..; rebind; body finally: #endloop.. (C06_loop_iteration_bracketed); a yield is #yield, suspension, "
+         "#receive, and nothing is received when the driver throws or closes (C06_yield_then_receive, "
+         "C06_throw_no_receive); return reports through #value and falling off the end is return None. Counting "
+         "statements over whole runs (exactly once per activation / iteration) are not proved; the oracle checks the "
+         "merged meta-event stream of generated programs against the bracket grammar. " + TIE,
+    design_ref="DESIGN.md section 5, C06",
+    note=NOTE_M2 + "Known finding F7c (a return in a finally block cancels an exception after #error was delivered). "
+         "An abandoned generator (closed, then yields again) gets no #exit: Python never resumes it.",
+)
+CLAIMS["C10"] = dict(
+    technique="Lean 4 theorems on the model of ExternalVariableCollector (table = bound or read names, classification total and exclusive) + provenance-table correspondence with __ptera_info__ + Python symtable oracle",
+    text="Over the model of ExternalVariableCollector (`collect`): a name bound by any statement of the body at any "
+         "depth (except / with / for / try / if / while blocks, imports, nested def/class, walrus) or read by it is an "
+         "entry of the variable table and nothing else is (C10_bound_anywhere_is_selectable, C10_blocks_contribute, "
+         "C10_table_is_exactly_bound_or_read), every entry has exactly one provenance (C10_every_entry_has_provenance, "
+         "C10_provenance_exclusive), external = read, never bound, not a closure variable "
+         "(C10_external_iff_read_only_global), a parameter stays an argument. Tie: for generated functions (some of them "
+         "closures) ptera's __ptera_info__ provenance table is compared with the model's on every run, together with the "
+         "rewritten tree. Oracle: for every symbol of Python's own symbol table of the function and for fresh names, "
+         "activation of f > name succeeds / is refused with a selector error before anything runs, and the recorded "
+         "provenance agrees with symtable; non-functions are refused with a type error.",
+    design_ref="DESIGN.md section 5, C10",
+    note="Python's scoping rules themselves are not modelled in Lean: symtable is the oracle. Lambda parameters and "
+         "comprehension variables are recorded by ptera as variables of the function (outside the quantifier of the "
+         "property: they occur in the function).",
+)
+CLAIMS["C16"] = dict(
+    technique="Lean 4: declaration semantics and marker theorems over M2 + instrument_refines (declarations are in the fragment); AST / executable correspondence; configuration x path oracle with marker scan",
+    text="PARTIAL. " + M2 + THM + "A declaration asks the handler whether or not the name is captured; an answer is "
+         "bound, the marker as answer is the ptera name error for that name and the name stays unbound "
+         "(C16_declaration_supplied_or_fails); no interact call returns the marker and a binding of a program value "
+         "through the handler never stores it (C16_interact_never_returns_marker, C16_binding_never_stores_marker); an "
+         "unbound name raises the name error where it is read, an unset global that is never read costs nothing "
+         "(C16_undefined_name_is_nameerror, C16_missing_global_skipped). That the marker occurs nowhere in a whole run "
+         "(events of accumulating handlers, return values) is not proved: the oracle runs generated functions with "
+         "declarations and conditionally read undefined globals under every subset of supplied variables x {tooled, "
+         "probing on subsets, probing on #enter} and scans results and events for the marker. " + TIE,
+    design_ref="DESIGN.md section 5, C16",
+    note=NOTE_M2 + "The error's annotation/provenance payload is checked on the implementation only.",
+)
+
 PENDING_REASON = ("not claimed yet in this build: the Lean model and correspondence check for this property are "
                   "still under construction (see DESIGN.md section 11); the technique applies and the property "
                   "will move to `checks` when its check exists")
